@@ -769,6 +769,47 @@ func (c *FnCtx) havocIn(st *State, objs []types.Object, body ast.Node) {
 	}
 }
 
+// havocGhostsIn havocs the ghost variables that callees inside the node modify (loop condition, post statement).
+func (c *FnCtx) havocGhostsIn(st *State, node ast.Node) {
+	mods := map[string]bool{}
+	c.calleeGhostMods(node, mods)
+	for _, m := range sortedKeys(mods) {
+		if old, ok := st.spec[m]; ok {
+			st.spec[m] = Val{T: c.fresh(m, old.T.Sort)}
+		}
+	}
+}
+
+func (c *FnCtx) calleeGhostMods(body ast.Node, mods map[string]bool) {
+	ast.Inspect(body, func(n ast.Node) bool {
+		ce, ok := n.(*ast.CallExpr)
+		if !ok {
+			return true
+		}
+		var fn *types.Func
+		switch f := unparen(ce.Fun).(type) {
+		case *ast.Ident:
+			fn, _ = c.info.ObjectOf(f).(*types.Func)
+		case *ast.SelectorExpr:
+			if sel, ok := c.info.Selections[f]; ok {
+				fn, _ = sel.Obj().(*types.Func)
+			} else {
+				fn, _ = c.info.ObjectOf(f.Sel).(*types.Func)
+			}
+		}
+		if fn != nil {
+			if sp := c.eng.Contracts.Funcs[c.eng.keyOfFunc(fn)]; sp != nil {
+				for _, m := range sp.Modifies {
+					if strings.HasPrefix(m, "ghost.") {
+						mods[m] = true
+					}
+				}
+			}
+		}
+		return true
+	})
+}
+
 func (c *FnCtx) havocGhosts(st *State, body ast.Node) {
 	// ghost variables modified by callees inside the loop
 	mods := map[string]bool{}
@@ -865,8 +906,18 @@ func (c *FnCtx) execFor(x *ast.ForStmt, st *State) []Out {
 	if x.Post != nil {
 		mods = append(mods, c.assignedVars(x.Post)...)
 	}
+	if x.Cond != nil {
+		// the condition is evaluated on every iteration: calls in it (for s.Scan() { ... }) modify state too
+		mods = append(mods, c.assignedVars(&ast.ExprStmt{X: x.Cond})...)
+	}
 	c.havocIn(st, mods, x.Body)
 	c.havocGhosts(st, x.Body)
+	if x.Cond != nil {
+		c.havocGhostsIn(st, x.Cond)
+	}
+	if x.Post != nil {
+		c.havocGhostsIn(st, x.Post)
+	}
 	c.assumeInvariants(st, ls, bodyPos)
 	var outs []Out
 	// decreases: value at loop head
